@@ -385,6 +385,23 @@ def build(chk: Check) -> None:
     for n, f, c in plan:
         check_model(chk, n, f, **c)
     wigner_lemmas(chk)
+    from contracts.c02_e3 import build_node_contracts
+
+    def search(_m=None):
+        """Property-level replay for the node-level contracts: re-run the zoo comparison on two reactions."""
+        from vlib.core import Check as _C
+
+        probe = _C("C02", "quick", LEVEL, TECHNIQUE)
+        for n_, f_ in (("jpsi_gamma_pi0_pi0", "canonical-helicity"), ("jpsi_sigmabar_sigma", "helicity"), ("lambdac_p_k_pi", "canonical-helicity")):
+            check_model(probe, n_, f_)
+        for ob in probe.obligations:
+            if ob.kind == "struct" and not ob.holds and ob.replay is not None:
+                r = ob.replay({})
+                if r.get("reproduced"):
+                    return r
+        return {"reproduced": False, "note": "models of three zoo reactions still equal the spec"}
+
+    build_node_contracts(chk, search)
     # engine self-test: a swapped D index must be refuted
     tr = Tr("st")
     phi, theta = sp.Symbol("phi", real=True), sp.Symbol("theta", real=True)
